@@ -20,6 +20,10 @@ pub fn fam_obj(variant: usize, k: usize) -> Vec<usize> {
     if variant == 0 {
         return vec![k];
     }
+    if variant == 2 {
+        // erase the even generators, keep the odd ones: sizes 0 / 1
+        return if k % 2 == 0 { vec![] } else { vec![k] };
+    }
     match k % 4 {
         0 => vec![],
         1 => vec![k],
@@ -353,7 +357,7 @@ pub fn run_optic(c: &mut Ctx, count: usize) {
     for _ in 0..count {
         match c.rng.below(6) {
             0 | 1 => {
-                let (fov, rov) = (c.rng.below(2), c.rng.below(2));
+                let (fov, rov) = (c.rng.below(3), c.rng.below(3));
                 let pending = c.rng.chance(1, 4);
                 let mut f = gen_lf(c, pending, true);
                 relabel(c, &mut f);
@@ -469,7 +473,7 @@ pub enum Ins {
 pub fn op_var_build(n_in: usize, p1: &[Ins], o1: &[usize], leak: bool) -> Sx {
     let leaked: std::cell::RefCell<Option<Var<usize, Op>>> = std::cell::RefCell::new(None);
     let r = build(|state| {
-        let mut vars: Vec<Var<usize, Op>> = (0..n_in).map(|_| Var::new(state.clone(), 0usize)).collect();
+        let mut vars: Vec<Var<usize, Op>> = (0..n_in).map(|i| Var::new(state.clone(), i % 3)).collect();
         let inputs = vars.clone();
         for ins in p1 {
             match ins {
@@ -489,12 +493,12 @@ pub fn op_var_build(n_in: usize, p1: &[Ins], o1: &[usize], leak: bool) -> Sx {
                 }
                 Ins::Op2(lab, args, r) => {
                     let av: Vec<Var<usize, Op>> = args.iter().map(|i| vars[*i].clone()).collect();
-                    let rs = operation(state, &av, vec![0usize; *r], Op(*lab));
+                    let rs = operation(state, &av, (0..*r).map(|k| (*lab + k) % 3).collect(), Op(*lab));
                     vars.extend(rs);
                 }
                 Ins::FnOp(lab, args) => {
                     let av: Vec<Var<usize, Op>> = args.iter().map(|i| vars[*i].clone()).collect();
-                    vars.push(fn_operation(state, &av, 0usize, Op(*lab)));
+                    vars.push(fn_operation(state, &av, *lab % 3, Op(*lab)));
                 }
             }
         }
